@@ -100,7 +100,8 @@ def check_lmethod(H, name, pts):
                 got = int(lm.get_knee(x, y, fit, cost)[0])
                 want = lm_getknee(x, y, fit, cost)
             except Exception as e:
-                H.note("lmethod.get_knee raised %s" % type(e).__name__)
+                H.violation("lmethod.get_knee(%s,%s) on %s raised %s: %s" % (fit, cost, name, type(e).__name__, str(e)[:80]),
+                            {"curve": name, "points": pts, "detector": "lmethod"}, clause="lmethod-completes")
                 continue
             if got != want or not (2 <= got <= n - 3):
                 H.violation("lmethod.get_knee(%s,%s) on %s = %d, first minimiser of the two-line error over 2..n-3 is %d" % (fit, cost, name, got, want),
@@ -116,7 +117,8 @@ def check_lmethod(H, name, pts):
                                 witness_id="lmethod-original-refinement-cycles" if it is lm.Refinement.original else None, clause="lmethod-termination")
                     continue
                 except Exception as e:
-                    H.note("lmethod.knee raised %s" % type(e).__name__)
+                    H.violation("lmethod.knee(%s,%s,limit=%d) on %s raised %s: %s" % (fit, it, limit, name, type(e).__name__, str(e)[:80]),
+                                {"curve": name, "points": pts, "detector": "lmethod", "fit": str(fit), "it": str(it), "limit": limit}, clause="lmethod-completes")
                     continue
                 # replay the refinement with the criterion's minimiser on each prefix
                 last, cur, cutoff, done, steps = -1, n, n, False, 0
